@@ -164,15 +164,75 @@ class SFunc:
 
 
 class SStr:
-    """Partially symbolic string: known length term, optional concrete text."""
+    """Partially symbolic string / bytes: known length term, optional concrete text, symbolic predicates."""
+    _n = [0]
 
-    def __init__(self, length, text=None, tag=None):
+    def __init__(self, length, text=None, tag=None, is_bytes=False):
         self.length = length
         self.text = text
         self.tag = tag
+        self.is_bytes = is_bytes
+        SStr._n[0] += 1
+        self.sid = SStr._n[0]
+        self.preds = {}
+
+    @property
+    def type_tag(self):
+        return 'bytes' if self.is_bytes else 'str'
+
+    def pred(self, name):
+        if name not in self.preds:
+            self.preds[name] = CTX.fresh(f'str{self.sid}_{name}', 'bool')
+        return self.preds[name]
+
+    def contains_hook(self, interp, item):
+        if isinstance(item, str) and item == "'":
+            CTX.side.append(Implies(self.pred('starts_quote'), self.pred('has_quote')).t)
+            return self.pred('has_quote')
+        raise Unsupported(f"substring test {item!r} on a symbolic string")
+
+    def compare_hook(self, interp, op, a, b):
+        if op == 'Eq':
+            if a is b:
+                return True
+            other = b if a is self else a
+            if isinstance(other, (str, bytes)):
+                if is_conc(self.length) and len(other) != self.length:
+                    return False
+                # equality with a literal: a symbolic predicate that forces the length
+                pr = self.pred('eq_' + ''.join(c if c.isalnum() else '_' for c in str(other)))
+                CTX.side.append(Implies(pr, eq(self.length, len(other))).t)
+                return pr
+            raise Unsupported("equality of symbolic strings")
+        raise Unsupported("ordering of symbolic strings")
 
     def __repr__(self):
         return f"SStr(len={self.length}, text={self.text!r})"
+
+
+class SChar:
+    """One character of a symbolic string."""
+    type_tag = 'str'
+
+    def __init__(self, of, idx):
+        self.of, self.idx = of, idx
+        self.length = 1
+
+    def compare_hook(self, interp, op, a, b):
+        other = b if a is self else a
+        if op == 'Eq' and other == "'" and conc_int(self.idx) == 0:
+            return self.of.pred('starts_quote')
+        raise Unsupported("comparison of a symbolic character")
+
+
+def _sstr_getitem(interp, s):
+    def g(interp2, key):
+        if isinstance(key, slice):
+            raise Unsupported("slice of a symbolic string")
+        if not interp2.branch(Sym.lift(s.length) > key if not (is_conc(s.length) and is_conc(key)) else s.length > key):
+            raise PyRaise('IndexError', 'string index out of range')
+        return SChar(s, key)
+    return g
 
 
 EXC_HIERARCHY = {
@@ -650,6 +710,14 @@ class Interp:
             if v is not None and not callable(v):
                 return v
             return LibRef(p)
+        if isinstance(obj, SStr):
+            from . import lib as _l
+            if name == 'encode' or name == 'decode':
+                return _l._sstr_encode(self, obj)
+            if name in ('strip', 'lstrip', 'rstrip'):
+                return _l._sstr_strip(self, obj)
+            if name == '__getitem__':
+                return _sstr_getitem(self, obj)
         fn = self.libattr.get((type_tag(obj), name))
         if fn is not None:
             return fn(self, obj)
@@ -1095,6 +1163,8 @@ class Interp:
             ms = self.find_method(obj.cls, '__getitem__') if obj.cls else None
             if ms:
                 return self.call(self.getattr(obj, '__getitem__'), [key], {})
+        if isinstance(obj, SStr):
+            return _sstr_getitem(self, obj)(self, key)
         fn = self.libattr.get((type_tag(obj), '__getitem__'))
         if fn is not None:
             return fn(self, obj)(self, key)
@@ -1343,6 +1413,8 @@ class Interp:
                     total = total + len(s)
         if not symbolic:
             return ''.join(parts)
+        if len(parts) == 1:
+            return parts[0]
         return SStr(total, None, tag=('concat', parts))
 
     def format_value(self, val, spec, conversion=-1):
@@ -1756,7 +1828,7 @@ def type_tag(v):
     if isinstance(v, str):
         return 'str'
     if isinstance(v, SStr):
-        return 'str'
+        return 'bytes' if v.is_bytes else 'str'
     if isinstance(v, bytes):
         return 'bytes'
     if isinstance(v, list):
